@@ -486,7 +486,7 @@ func leafUniverse() (all []*Term, core []*Term) {
 	for i, ids := range [][]pair{
 		{{"n1", "a"}}, {{"n2", "b"}}, {{"n1", ""}}, {{"", "a"}}, {{"n1", "a"}, {"n2", "b"}}, {{"n2", "b"}, {"n1", "a"}},
 		{{"n1", ""}, {"", "b"}}, {{"", "b"}, {"n1", ""}}, {{"n1", "a"}, {"n1", ""}}, {}, {{"n1", "a"}, {"n1", "b"}}, {{"n2", ""}, {"", "c"}, {"n1", "a"}},
-		{{"n1", ""}, {"", "n1"}}, {{"", "n1"}, {"n1", ""}}, {{"a", ""}, {"", "a"}, {"n1", "a"}},
+		{{"n1", ""}, {"", "n1"}}, {{"", "n1"}, {"n1", ""}}, {{"a", ""}, {"", "a"}, {"n1", "a"}}, {{"n2", ""}}, {{"", "b"}},
 	} {
 		add(&Term{Op: "nsname", IDs: ids}, i == 0 || i == 2 || i == 6)
 	}
